@@ -140,7 +140,7 @@ func init() {
 	addSpec(&propSpec{ID: "C20", Level: "fault_enumeration", QuickRuns: 480, ThorRuns: 12000, QuickSecs: 75, ThorSecs: 900,
 		Assume: []string{"the subscriber side decodes the notifier's stream with encoding/json exactly as eventmon/monitord.receiveV0 does; the 40-line glue of cmd/keymaster-eventmond (monitor channels -> recorder channels) is not exercised: events are fed to the recorder's public channels directly",
 			"the AWS Organisations account listing (list_accounts_role) is not exercised: allowed accounts are configured statically"}})
-	addSpec(&propSpec{ID: "C16", Level: "exploration", Race: true, QuickRuns: 480, ThorRuns: 12000, QuickSecs: 90, ThorSecs: 1200})
+	addSpec(&propSpec{ID: "C16", Level: "exploration", Race: true, QuickRuns: 800, ThorRuns: 16000, QuickSecs: 120, ThorSecs: 1200})
 	addSpec(&propSpec{ID: "C15", Level: "fault_enumeration", QuickRuns: 96, ThorRuns: 4000, QuickSecs: 75, ThorSecs: 900,
 		Assume: []string{"SQLite's own atomic commit is trusted: torn or lost page writes below SQLite are not simulated (the files live on the real file system / tmpfs)",
 			"a crash is modelled as: no driver call after the crash point reaches the database, open connections are closed without commit or rollback, both files are reopened"}})
